@@ -284,24 +284,34 @@ def validateDeposits (lzIDs : List Nat) (ts : List TokenInfo) (ds : List (String
     | none => false
     | some chain => lzIDs.contains chain && decide (g.2.map (·.asset)).Nodup && g.2.all (validateDepItem ts chain))
 
-/-- ValidateOperatorAssets, one AssetByID -/
-def validateOpItem (ts : List TokenInfo) (a : OpItem) : Bool :=
+/-- x/assets/types/general.go: ExocoreAssetID -/
+def exocoreAssetID : String := "0x0000000000000000000000000000000000000000_0x0"
+
+/-- ValidateOperatorAssets, one AssetByID. `nativeExempt` = the F-18j repair: a pool of the native token needs no
+    entry in tokens (x/delegation writes it for MsgDelegation); the comparison with the token's total is made whenever
+    an entry exists. -/
+def validateOpItem (nativeExempt : Bool) (ts : List TokenInfo) (a : OpItem) : Bool :=
   match tokenTotal ts a.asset with
-  | none => false
+  | none => nativeExempt && a.asset == exocoreAssetID && decide (a.opShare ≤ a.totalShare)
   | some tot => decide (a.total + a.pending ≤ tot) && decide (a.opShare ≤ a.totalShare)
 
 /-- ValidateOperatorAssets (bech32 decoding of the operator not modelled) -/
-def validateOpAssets (ts : List TokenInfo) (os : List (String × List OpItem)) : Bool :=
+def validateOpAssets (nativeExempt : Bool) (ts : List TokenInfo) (os : List (String × List OpItem)) : Bool :=
   decide (os.map (·.1)).Nodup &&
-  os.all (fun g => decide (g.2.map (·.asset)).Nodup && g.2.all (validateOpItem ts))
+  os.all (fun g => decide (g.2.map (·.asset)).Nodup && g.2.all (validateOpItem nativeExempt ts))
 
 /-- Params.Validate -/
 def validateParams (p : AParams) : Bool := isHexAddress p.gateway && isHexHash p.topic
 
 /-- x/assets/types/genesis.go: GenesisState.Validate -/
-def validateAssets (d : ADoc) : Bool :=
+def validateAssetsWith (nativeExempt : Bool) (d : ADoc) : Bool :=
   validateChains d.chains && validateTokens (d.chains.map (·.lzID)) d.tokens &&
-  validateDeposits (d.chains.map (·.lzID)) d.tokens d.deposits && validateOpAssets d.tokens d.opAssets &&
+  validateDeposits (d.chains.map (·.lzID)) d.tokens d.deposits && validateOpAssets nativeExempt d.tokens d.opAssets &&
   validateParams d.params
+
+/-- the code as it is (after the F-18j repair) -/
+def validateAssets (d : ADoc) : Bool := validateAssetsWith true d
+/-- the code before the F-18j repair: every pool needed a registered token. Kept for the regression theorems. -/
+def validateAssetsPreFix (d : ADoc) : Bool := validateAssetsWith false d
 
 end ExoVerif.Genesis
